@@ -710,3 +710,263 @@ Section SkDer.
       eapply sk_finish_ok; eassumption.
   Qed.
 End SkDer.
+
+(* ---- error-type closure ------------------------------------------------------------------------------ *)
+
+(* the documented errors of the decoders: UnexpectedDER, MalformedPointError (AssertionError),
+   ValueError, UnknownCurveError *)
+Definition documented (e : err) : Prop :=
+  In e [EUnexpectedDER; EMalformedPoint; EValue; EUnknownCurve].
+(* ... plus the one that leaks: IndexError *)
+Definition documented_or_index (e : err) : Prop :=
+  In e [EUnexpectedDER; EMalformedPoint; EValue; EUnknownCurve; EIndex].
+
+Lemma doc_weaken e : documented e -> documented_or_index e.
+Proof. unfold documented, documented_or_index. cbn. intuition. Qed.
+
+Lemma doi_uder e : e = EUnexpectedDER -> documented_or_index e.
+Proof. intros ->. cbn. auto. Qed.
+Lemma doi_uder_or_index e : e = EUnexpectedDER \/ e = EIndex -> documented_or_index e.
+Proof. intros [-> | ->]; cbn; auto 6. Qed.
+
+Lemma doi_read_length s e : read_length s = Err e -> documented_or_index e.
+Proof. intro H. apply doi_uder. eapply read_length_err; eassumption. Qed.
+Lemma doi_remove_sequence s e : remove_sequence s = Err e -> documented_or_index e.
+Proof. intro H. apply doi_uder. eapply remove_sequence_err; eassumption. Qed.
+Lemma doi_remove_integer s e : remove_integer s = Err e -> documented_or_index e.
+Proof. intro H. apply doi_uder. eapply remove_integer_err; eassumption. Qed.
+Lemma doi_remove_object s e : remove_object s = Err e -> documented_or_index e.
+Proof. intro H. apply doi_uder. eapply remove_object_err; eassumption. Qed.
+Lemma doi_remove_octet_string s e : remove_octet_string s = Err e -> documented_or_index e.
+Proof. intro H. apply doi_uder_or_index. eapply remove_octet_string_err; eassumption. Qed.
+Lemma doi_remove_constructed s e : remove_constructed s = Err e -> documented_or_index e.
+Proof. intro H. apply doi_uder_or_index. eapply remove_constructed_err; eassumption. Qed.
+Lemma doi_remove_bitstring s m e : remove_bitstring s m = Err e -> documented_or_index e.
+Proof. intro H. apply doi_uder_or_index. eapply remove_bitstring_err; eassumption. Qed.
+Lemma doi_string_to_number s e : string_to_number s = Err e -> documented_or_index e.
+Proof. destruct s; cbn; intro H; inversion H. cbn. auto. Qed.
+
+Ltac doi_const := solve [cbn; auto 8].
+
+Ltac doi_step H :=
+  match type of H with
+  | bind ?r _ = Err _ =>
+      let E := fresh "E" in let x := fresh "x" in let e0 := fresh "e0" in
+      destruct r as [x|e0] eqn:E; cbn [bind] in H;
+      [ try (destruct x as [x ?]; try (destruct x as [x ?])); cbv beta iota in H
+      | apply err_inj in H; subst; clear H; rename E into H ]
+  | (if ?b then _ else _) = Err _ => destruct b
+  | match ?l with [] => _ | _ :: _ => _ end = Err _ => destruct l
+  | match ?l with Some _ => _ | None => _ end = Err _ => destruct l
+  | Err _ = Err _ => apply err_inj in H; subst
+  | Ok _ = Err _ => discriminate H
+  | match ?x with _ => _ end = Err _ => is_var x; destruct x
+  end.
+
+Global Hint Resolve doi_read_length doi_remove_sequence doi_remove_integer doi_remove_object
+  doi_remove_octet_string doi_remove_constructed doi_remove_bitstring doi_string_to_number : doi.
+
+Ltac doi_done := first [ doi_const | solve [eauto with doi] ].
+
+Lemma doi_from_raw_encoding d rel e : from_raw_encoding d rel = Err e -> documented_or_index e.
+Proof. unfold from_raw_encoding. intro H. repeat (doi_step H; try doi_done). Qed.
+Global Hint Resolve doi_from_raw_encoding : doi.
+
+Section Closure.
+  Variable sqrt_mod : Z -> N -> option N.
+  Variable order_ok : curve -> N -> N -> bool.
+  Variable pubmul : curve -> N -> result (N * N).
+  Variable ed_vk : bool -> bytes -> result vkey.
+  Variable ed_sk : bool -> bytes -> result skey.
+  Variable known : list (list N * cref).
+
+  Lemma doi_point_from_bytes c d v ve e : point_from_bytes sqrt_mod c d v ve = Err e -> documented_or_index e.
+  Proof.
+    unfold point_from_bytes, from_hybrid, from_compressed. intro H.
+    repeat (doi_step H; try doi_done).
+  Qed.
+
+  Lemma doi_vk_from_public_point c x y v e : vk_from_public_point order_ok c x y v = Err e -> documented_or_index e.
+  Proof. unfold vk_from_public_point. intro H. repeat (doi_step H; try doi_done). Qed.
+
+  Hypothesis ed_vk_err : forall w s e, ed_vk w s = Err e -> documented_or_index e.
+  Hypothesis ed_sk_err : forall w s e, ed_sk w s = Err e -> documented_or_index e.
+  Hypothesis pubmul_err : forall c k e, pubmul c k = Err e -> documented_or_index e.
+
+  Lemma doi_vk_from_string cr s v ve e :
+    vk_from_string sqrt_mod order_ok ed_vk cr s v ve = Err e -> documented_or_index e.
+  Proof.
+    unfold vk_from_string. intro H. destruct cr; [|eapply ed_vk_err; eassumption].
+    doi_step H; [|eapply doi_point_from_bytes; eassumption].
+    eapply doi_vk_from_public_point; eassumption.
+  Qed.
+
+  Lemma doi_find_curve l oid e : find_curve_in l oid = Err e -> documented_or_index e.
+  Proof.
+    induction l as [|[o c] t IH]; cbn [find_curve_in]; intro H.
+    - apply err_inj in H. subst. doi_const.
+    - destruct (oid_eqb o oid); [discriminate | auto].
+  Qed.
+
+  Lemma doi_curve_from_der d ven vex e : curve_from_der sqrt_mod known d ven vex = Err e -> documented_or_index e.
+  Proof.
+    unfold curve_from_der, find_curve. intro H.
+    destruct (if ven || vex then (ven, vex) else (true, true)) as [ven' vex'].
+    repeat (doi_step H; try doi_done);
+      try (eapply doi_find_curve; eassumption); try (eapply doi_point_from_bytes; eassumption).
+  Qed.
+
+  Lemma doi_vk_from_der s ve ven vex e :
+    vk_from_der sqrt_mod order_ok ed_vk known s ve ven vex = Err e -> documented_or_index e.
+  Proof.
+    unfold vk_from_der. intro H.
+    repeat (doi_step H; try doi_done);
+      try (eapply ed_vk_err; eassumption); try (eapply doi_curve_from_der; eassumption);
+      try (eapply doi_vk_from_string; eassumption).
+  Qed.
+
+  Lemma doi_sk_from_secret_exponent c k e :
+    sk_from_secret_exponent order_ok pubmul c k = Err e -> documented_or_index e.
+  Proof.
+    unfold sk_from_secret_exponent. intro H.
+    repeat (doi_step H; try doi_done);
+      try (eapply pubmul_err; eassumption); try (eapply doi_vk_from_public_point; eassumption).
+  Qed.
+
+  Lemma doi_sk_from_string cr s e :
+    sk_from_string order_ok pubmul ed_sk cr s = Err e -> documented_or_index e.
+  Proof.
+    unfold sk_from_string. intro H. destruct cr; [|eapply ed_sk_err; eassumption].
+    repeat (doi_step H; try doi_done); try (eapply doi_sk_from_secret_exponent; eassumption).
+  Qed.
+
+  Lemma doi_sk_from_der s ven vex e :
+    sk_from_der sqrt_mod order_ok pubmul ed_sk known s ven vex = Err e -> documented_or_index e.
+  Proof.
+    unfold sk_from_der. intro H.
+    repeat (doi_step H; try doi_done);
+      try (eapply ed_sk_err; eassumption); try (eapply doi_curve_from_der; eassumption);
+      try (eapply doi_sk_from_string; eassumption).
+  Qed.
+
+  (* the plug-in turns UnexpectedDER and MalformedPointError into ValueError *)
+  Lemma create_from_der_fmt_err d e :
+    create_from_der_fmt sqrt_mod order_ok ed_vk known d = Err e -> In e [EValue; EUnknownCurve; EIndex].
+  Proof.
+    unfold create_from_der_fmt, catch.
+    destruct (vk_from_der sqrt_mod order_ok ed_vk known d None true true) as [k|e0] eqn:E; [discriminate|].
+    apply doi_vk_from_der in E. unfold documented_or_index in E. cbn [In] in E.
+    destruct E as [<-|[<-|[<-|[<-|[<-|[]]]]]]; cbn; intro H; apply err_inj in H; subst; auto.
+  Qed.
+
+  (* IndexError is reachable: refutes "only documented errors" *)
+  Lemma vk_from_der_index_witness :
+    vk_from_der sqrt_mod order_ok ed_vk known_curves
+      (H 25 0x3017301306072a8648ce3d020106082a8648ce3d0301070301) None true true = Err EIndex.
+  Proof. vm_compute. reflexivity. Qed.
+
+  Lemma sk_from_der_index_witness :
+    sk_from_der sqrt_mod order_ok pubmul ed_sk known_curves (H 5 0x3003020101) true true = Err EIndex.
+  Proof. vm_compute. reflexivity. Qed.
+
+  Lemma curve_from_der_index_witness :
+    curve_from_der sqrt_mod known_curves (H 9 0x300702010130003000) true true = Err EIndex.
+  Proof. vm_compute. reflexivity. Qed.
+End Closure.
+
+(* ---- the final round-trip statements for the 17 generated curves -------------------------------------- *)
+
+Section Final.
+  Variable sqrt_mod : Z -> N -> option N.
+  Variable order_ok : curve -> N -> N -> bool.
+  Variable pubmul : curve -> N -> result (N * N).
+  Variable ed_vk : bool -> bytes -> result vkey.
+  Variable ed_sk : bool -> bytes -> result skey.
+
+  Lemma curve_of_row_p r : c_p (curve_of_row r) = w_p r. Proof. reflexivity. Qed.
+  Lemma curve_of_row_n r : c_n (curve_of_row r) = w_n r. Proof. reflexivity. Qed.
+
+  Lemma vk_to_der_total r x y pe ce : In r wrows -> (pe = Uncompressed \/ pe = Hybrid) ->
+    x < w_p r -> y < w_p r -> exists d, vk_to_der (curve_of_row r) x y pe ce = Ok d.
+  Proof.
+    intros Hin Hpe Hx Hy.
+    destruct (vk_to_string_ok (curve_of_row r) x y pe Hx Hy) as [ps [Hps _]].
+    pose proof (curves17_der_ok sqrt_mod) as A. rewrite forallb_forall in A.
+    specialize (A r Hin). unfold curve_der_ok in A. rewrite forallb_forall in A.
+    assert (Hce : In ce [None; Some NamedCurve; Some Explicit]) by (destruct ce as [[|]|]; cbn; auto).
+    specialize (A ce Hce). rewrite forallb_forall in A.
+    assert (Hpe' : In pe [Uncompressed; Hybrid]) by (destruct Hpe as [-> | ->]; cbn; auto).
+    specialize (A pe Hpe').
+    destruct (curve_to_der (curve_of_row r) ce pe) as [cd|e] eqn:Ecd; [|discriminate].
+    destruct Hpe as [-> | ->]; unfold vk_to_der; rewrite Hps; cbn [bind]; rewrite pk_encode; cbn [bind];
+      rewrite Ecd; cbn [bind]; rewrite encode_bitstring_0; cbn [bind]; eexists; reflexivity.
+  Qed.
+
+  Lemma vk_der_roundtrip17 r x y pe ce d : In r wrows -> (pe = Uncompressed \/ pe = Hybrid) ->
+    point_valid order_ok (curve_of_row r) x y ->
+    vk_to_der (curve_of_row r) x y pe ce = Ok d ->
+    vk_from_der sqrt_mod order_ok ed_vk known_curves d None true true = Ok (VkW (curve_of_row r) x y).
+  Proof.
+    intros Hin Hpe PV Hd. destruct (curve17_sizes r Hin) as [S1 _].
+    eapply vk_der_roundtrip; try eassumption.
+    intros cd Hcd. apply (curve17_from_der sqrt_mod r ce pe cd Hin Hpe Hcd).
+  Qed.
+
+  Lemma sk_der_roundtrip17 r k px py pe fmt ce d : In r wrows ->
+    1 <= k -> k < w_n r -> pubmul (curve_of_row r) k = Ok (px, py) -> px < w_p r -> py < w_p r ->
+    sk_to_der (curve_of_row r) k px py pe fmt ce = Ok d ->
+    sk_from_der sqrt_mod order_ok pubmul ed_sk known_curves d true true = Ok (SkW (curve_of_row r) k px py).
+  Proof.
+    intros Hin Hk1 Hkn Hpm Hpx Hpy Hd. destruct (curve17_sizes r Hin) as [S1 [S2 _]].
+    eapply sk_der_roundtrip; try eassumption.
+    intros cd Hcd. apply (curve17_from_der sqrt_mod r ce Uncompressed cd Hin (or_introl eq_refl) Hcd).
+  Qed.
+
+  (* bec2format: raw 64-byte format <-> DER through the constant 27-byte header *)
+  Lemma raw_fmt_roundtrip x y raw : point_valid order_ok NIST256p x y ->
+    to_raw_bin_fmt der_header_len NIST256p x y = Ok raw ->
+    raw = be 32 x ++ be 32 y /\
+    create_from_raw_fmt sqrt_mod order_ok ed_vk known_curves der_header raw = Ok (VkW NIST256p x y).
+  Proof.
+    intros PV Hraw. pose proof PV as [Hx [Hy _]].
+    rewrite (to_raw_bin_fmt_p256 x y Hx Hy) in Hraw. apply ok_inj in Hraw. subst raw.
+    split; [reflexivity|].
+    unfold create_from_raw_fmt, create_from_der_fmt.
+    assert (Hin : In w_NIST256p wrows) by (vm_compute; auto 20).
+    pose proof (vk_der_roundtrip17 w_NIST256p x y Uncompressed None _ Hin (or_introl eq_refl) PV
+                  (vk_to_der_p256 x y Hx Hy)) as R.
+    change (curve_of_row w_NIST256p) with NIST256p in R. rewrite R. reflexivity.
+  Qed.
+End Final.
+
+(* ---- witnesses: removers without a length test accept truncated bodies / index empty input -------- *)
+
+Lemma octet_string_truncated_accepted :
+  remove_octet_string [x04; x05; x01] = Ok ([x01], []) /\ encode_octet_string [x01] <> [x04; x05; x01].
+Proof. split; [reflexivity | discriminate]. Qed.
+
+Lemma bitstring_truncated_accepted :
+  remove_bitstring [x03; x05; x00; x01] (BsInt 0) = Ok ([x01], None, []).
+Proof. reflexivity. Qed.
+
+Lemma constructed_truncated_accepted :
+  remove_constructed [xa0; x05; x01] = Ok (0, [x01], []).
+Proof. reflexivity. Qed.
+
+Lemma index_error_witnesses :
+  remove_octet_string [] = Err EIndex /\ remove_constructed [] = Err EIndex /\
+  remove_bitstring [x03; x01] (BsInt 0) = Err EIndex /\ read_number [] = Err EIndex.
+Proof. repeat split; reflexivity. Qed.
+
+(* point strings: only MalformedPointError (AssertionError) or ValueError *)
+Lemma string_to_number_err s e : string_to_number s = Err e -> e = EValue.
+Proof. destruct s; cbn; intro H; inversion H. reflexivity. Qed.
+
+Lemma vk_from_string_err_w sqrt_mod order_ok ed_vk c s validate ve e :
+  vk_from_string sqrt_mod order_ok ed_vk (CW c) s validate ve = Err e -> e = EMalformedPoint \/ e = EValue.
+Proof.
+  unfold vk_from_string, point_from_bytes, from_hybrid, from_compressed, from_raw_encoding,
+    vk_from_public_point. intro H.
+  repeat (doi_step H; try solve [left; reflexivity | right; reflexivity
+                                | right; eapply string_to_number_err; eassumption]).
+Qed.
